@@ -104,6 +104,15 @@ T.update({
  'C20-c': ('C20', 'bin/main.c parse_file epilogue: free(sanitized) added without resetting the static pointer', 'two or more file arguments with address lines: use after free / double free in the second file'),
  'C17-d': ('C17', 'src/is_6531_local.c (#ifdef RFC6531_FOLLOW_RFC5322): look-ahead test ch > 0x7f became ch >= 0x7f', 'RFC6531_FOLLOW_RFC5322 build, quoted whitespace directly followed by DEL: accepted, mode 5322 rejects'),
 })
+# round 10
+T.update({
+ 'C06-d': ('C06', 'src/utf8_decode.c: cont() reads the_input[the_index++] directly instead of going through the bounds-checked get()',
+           'is_6531_local on a string that ends in a truncated 3- or 4-byte sequence ("ab\\xE2", "ab\\xF0"): reads 1-2 bytes past the terminator; the return value is unchanged'),
+ 'C10-c': ('C10', 'src/is_special_domain.c: the "example" label compared with memcmp (case-sensitive) instead of strncasecmp',
+           'an upper-case EXAMPLE second-level label (user@EXAMPLE.com, user@XN--BCHER-KVA.EXAMPLE.COM): mode 6531 (libidn2 lower-cases) says SPECIAL, the ASCII modes say GENERIC'),
+ 'C11-c': ('C11', 'src/auto_tld.c: row "bq" hand-edited from TLD_TYPE_NOT_ASSIGNED to TLD_TYPE_COUNTRY_CODE',
+           'a lookup of the one TLD bq (CSV: country-code with manager "Not assigned")'),
+})
 for sid, (prop, change, needs) in T.items():
     d = os.path.join(S, sid)
     if not os.path.isdir(d):
